@@ -48,6 +48,12 @@ def run(ck, ctx):
     ck.nd("enumeration of crash points with partial writes (needs the simulated store's semantics at run time)")
     ck.nd("that the saved manifest's contents list exactly the surviving objects (value-level)")
     ck.rule("R12.8", WRITER_TEXT)
+    ck.rule("R12.9", "compaction unlists exactly what it folded: manifest entries are dropped by membership in the list of segments whose deltas "
+                     "went into the output, never by an ordering test on ids (the folded set is not a prefix: large and unreadable segments are "
+                     "skipped) - a confirmed segment that is unlisted without having been folded is lost to recovery (shared with C13 R13.6)")
+    ck.rule("R12.10", "compaction never replaces a newer confirmed value by an older one: in the per-key fold an entry is overwritten only behind "
+                      "`key absent` or `incoming stamp > stored stamp` (segment ids do not order ages: a compacted segment gets a fresh, higher id) "
+                      "(shared with C13 R13.1; the open merge-operator finding stays with C13)")
     for cfg in ctx.configs:
         prog = ctx.prog(cfg)
         ck.configs.append(cfg)
@@ -61,6 +67,9 @@ def run(ck, ctx):
         _r126(ck, prog, fns, cfg)
         _r127(ck, prog, fns, cfg)
         writer_rule(ck, prog, cfg, "R12.8")
+        from . import c13 as _c13
+        from .core import Only as _Only
+        _c13._rules(_Only(ck, {"R13.6": "R12.9", "R13.1": "R12.10"}, skip_keys=("R13.1:compact:fold-operator",)), prog, cfg)
 
 
 def _key_root(fn, operand):
